@@ -616,6 +616,82 @@ def panic_sites(B, R=None):
     return sites
 
 
+def _len_fn(B, op, depth=0):
+    """the function value `op` (a fn item or a closure) maps a buffer to its length (possibly wrapped in an Option)"""
+    from .ranges import LEN_FNS
+    if op.get('k') == 'c' and op.get('fn'):
+        return op['fn'] in LEN_FNS or op['fn'].endswith('::len')
+    o = B.origin(op)
+    if o[0] == 'agg' and o[1].get('ak') == 'closure' and B.PROGRAM is not None and depth < 3:
+        CB = B.PROGRAM.B(o[1].get('def'))
+        if CB is None:
+            return False
+        lens = 0
+        for bb, t in CB.calls():
+            nm = callee_of(t)[0] or ''
+            if nm in LEN_FNS or nm.endswith('::len'):
+                lens += 1
+            elif nm.endswith('Option::<T>::map') and len(t['args']) > 1 and _len_fn(CB, t['args'][1], depth + 1):
+                lens += 1
+            elif nm.endswith('Option::<T>::as_ref') or nm.endswith('Deref::deref') or nm.endswith('AsRef::as_ref'):
+                continue
+            else:
+                return False
+        if any(st['k'] == '=' and st['rv']['k'] == 'bin' for bb, j, st in CB.stmts()):
+            return False
+        return lens >= 1
+    return False
+
+
+def _mem_len(B, o, depth=0):
+    """the origin is the length of a buffer, or a sum of such lengths (over the elements of a collection / of an Option)"""
+    from .ranges import LEN_FNS
+    if depth > 8:
+        return False
+    k = o[0]
+    if k == 'const':
+        return isinstance(o[1], int) and 0 <= o[1] < 2**32
+    if k in ('payload', 'try', 'try_lit'):
+        return _mem_len(B, o[1], depth + 1)
+    if k == 'bin' and o[1] in ('Add', 'AddWithOverflow'):
+        return _mem_len(B, o[2], depth + 1) and _mem_len(B, o[3], depth + 1)
+    if k == 'proj' and o[2] == ('0',) and o[1][0] == 'bin':
+        return _mem_len(B, o[1], depth + 1)
+    if k != 'call' or not o[1] or o[3]:
+        return False
+    nm = o[1]
+    t = B.blocks[o[2]]['t']
+    if nm in LEN_FNS or nm.endswith('::len'):
+        return True
+    last = nm.rsplit('::', 1)[-1]
+    if last == 'sum' and 'Iterator' in nm and t['args']:
+        cur = t['args'][0]
+        for _ in range(8):
+            oc = B.origin(cur)
+            if oc[0] != 'call' or not oc[1]:
+                return False
+            ct = B.blocks[oc[2]]['t']
+            ln = oc[1].rsplit('::', 1)[-1]
+            if ln in ('map', 'filter_map', 'flat_map') and len(ct['args']) > 1:
+                return _len_fn(B, ct['args'][1])
+            if ln in ('flatten', 'filter', 'copied', 'cloned', 'into_iter', 'skip', 'take', 'rev', 'chain') and ct['args']:
+                cur = ct['args'][0]
+                continue
+            return False
+        return False
+    if last in ('unwrap_or', 'unwrap_or_default') and 'Option' in nm and t['args']:
+        if last == 'unwrap_or' and B.origin(t['args'][1])[0] != 'const':
+            return False
+        oi = B.origin(t['args'][0])
+        if oi[0] == 'call' and oi[1] and oi[1].endswith('Option::<T>::map'):
+            it = B.blocks[oi[2]]['t']
+            return len(it['args']) > 1 and _len_fn(B, it['args'][1])
+        return False
+    if last == 'map_or' and 'Option' in nm and len(t['args']) > 2:
+        return B.origin(t['args'][1])[0] == 'const' and _len_fn(B, t['args'][2])
+    return False
+
+
 def discharge(B, R, site):
     """-> (verdict, detail) with verdict in 'ok' | 'bad' | 'undecided'."""
     bb = site['bb']
@@ -688,6 +764,8 @@ def discharge(B, R, site):
             return 'undecided', 'operator %s' % op
         if lo >= tr[0] and hi <= tr[1]:
             return 'ok', 'result range [%s, %s] fits the type' % (lo, hi)
+        if op == 'Add' and tr[1] >= 2**63 - 1 and tr[0] == 0 and _mem_len(B, B.origin(a)) and _mem_len(B, B.origin(b_)):
+            return 'ok', 'sum of the lengths of byte buffers that are all held in memory at the same time: bounded by the address space'
         return ('undecided' if ment(canon(B, a), canon(B, b_)) else 'bad'), '%s may overflow: operand ranges [%s,%s] and [%s,%s]' % (op, ra[0], ra[1], rb[0], rb[1])
     if k == 'neg':
         ra = R.range_of(need[1], bb)
